@@ -219,6 +219,8 @@ impl Prop for C05 {
                 6..=8 => rng.random_range(60..=600),
                 _ => rng.random_range(600..=max_n),
             };
+            // many spinning workers are expensive on a loaded machine: keep their inputs short
+            let n = if threads >= 16 { n.min(400) } else { n };
             let mut slow = vec![];
             if n > 0 {
                 for _ in 0..rng.random_range(0..=3) {
